@@ -225,9 +225,27 @@ fn empty_operand_laws(stats: &mut Stats, rng: &mut Rng) {
     }
 }
 
+/// a closed shape made of one section (teardrop) or two (lens of two arcs)
+fn few_section_shape(rng: &mut Rng) -> P {
+    let c = Coord2(rng.r(30.0, 70.0), rng.r(30.0, 70.0));
+    let a = rng.r(0.0, TAU);
+    let r = rng.r(15.0, 35.0);
+    let u = Coord2(a.cos(), a.sin());
+    let v = Coord2(-u.1, u.0);
+    if rng.b() {
+        let k = rng.r(0.5, 1.0);
+        (c, vec![(c + (u * 1.0 - v * k) * r, c + (u * 1.0 + v * k) * r, c)])
+    } else {
+        let (p, q) = (c - u * r, c + u * r);
+        let (b1, b2) = (rng.r(0.3, 0.9) * r, rng.r(0.3, 0.9) * r);
+        (p, vec![(p + u * (r * 0.6) + v * b1, q - u * (r * 0.6) + v * b1, q), (q - u * (r * 0.6) - v * b2, p + u * (r * 0.6) - v * b2, p)])
+    }
+}
+
 pub fn search(seed: u64, n: u64) {
     quiet_panics();
     let mut rng = Rng(seed ^ 0x5EA2C11);
+    let mut rng_few = Rng(seed ^ 0xFE3);
     let mut stats = Stats::new();
     empty_operand_laws(&mut stats, &mut rng);
     // the tangent corpus x 4 variants through cut, full_intersect, a two-operand chain and the three one-level expressions
@@ -256,6 +274,9 @@ pub fn search(seed: u64, n: u64) {
         let mut sets: Vec<Vec<P>> = vec![];
         for _ in 0..k {
             let s = if !sets.is_empty() && rng.i(10) == 0 { sets[rng.i(sets.len() as u64) as usize].clone() } else { gen_operand_set(&mut rng) };
+            // one operand in eight is a shape enclosed by only one or two curve sections (teardrop, two-arc lens): drawn from a stream of its
+            // own, so that the other operands stay what they were before these shapes existed
+            let s = if rng_few.i(8) == 0 { vec![few_section_shape(&mut rng_few)] } else { s };
             sets.push(s);
         }
         stats.count(&format!("chain.n{}", k));
